@@ -15,6 +15,7 @@ import NiftyVerif.Model.Priors
 import NiftyVerif.Lemmas.TranscReal
 import NiftyVerif.Lemmas.PriorsInterp
 import NiftyVerif.Lemmas.PriorsReal
+import NiftyVerif.Lemmas.PriorsGrid
 
 namespace NiftyVerif.C30
 open NiftyVerif NiftyVerif.Priors Real
@@ -499,5 +500,78 @@ theorem inverse_roundtrip_invgamma (n0 : ℝ × ℝ) (rest : List (ℝ × ℝ)) 
     simp only [invgammaInvRe, invgammaRe, interpolatorInverse, interpolatorApply, interp, ha, if_false, if_true,
       TranscReal.exp_eq, TranscReal.log_eq, log_mul (exp_pos _).ne' hs.ne', log_exp, hv]
     exact key
+
+/-- the table grid of `interpolator(step=)` (`np.arange(xmin, xmax + step, step)`, exact arithmetic): non-empty, equally
+    spaced from `xmin`, and it covers the documented range — the last abscissa lies in `[xmax, xmax + step)` -/
+theorem interpolator_grid_covers {xmin xmax step : Rat} (hs : 0 < step) (hx : xmin ≤ xmax) :
+    let xs := interpolatorXsStep xmin xmax step
+    0 < xs.length ∧ (∀ i (h : i < xs.length), xs[i] = xmin + (i : Rat) * step) ∧
+      xmax ≤ xmin + ((xs.length - 1 : Nat) : Rat) * step ∧
+      xmin + ((xs.length - 1 : Nat) : Rat) * step < xmax + step := by
+  obtain ⟨h1, h2, h3⟩ := arangeLen_bounds hs hx
+  simp only [interpolatorXsStep, arange_length]
+  set n := arangeLen xmin (xmax + step) step with hn
+  have hcast : ((n - 1 : Nat) : Rat) = (n : Rat) - 1 := by
+    rw [Nat.cast_sub h1]; simp
+  refine ⟨h1, fun i h => arange_get xmin (xmax + step) step i (by rw [arange_length]; exact h), ?_, ?_⟩
+  · rw [hcast]
+    have := (div_le_iff₀ hs).mp h2
+    nlinarith
+  · rw [hcast]
+    have : (n : Rat) - 1 < (xmax + step - xmin) / step := by linarith
+    have := (lt_div_iff₀ hs).mp this
+    nlinarith
+
+example : interpolatorXsStep (-1) 1 (1 / 2) = [-1, -1 / 2, 0, 1 / 2, 1] := by decide +kernel
+
+/-- `invgamma_prior` is exact at the grid points: at the first node and at the right one of any two neighbouring nodes the
+    value is `g(x_i)·scale` with `g = Q_invgamma ∘ Φ` the tabulated quantile function -/
+theorem invgamma_exact_at_nodes {g : ℝ → ℝ} (hgpos : ∀ x, 0 < g x) (scale x0 : ℝ) (xs : List ℝ)
+    (hinc : Inc (x0, log (g x0)) (mkTable (fun t => log (g t)) xs)) :
+    invgammaRe true scale x0 (x0, log (g x0)) (mkTable (fun t => log (g t)) xs) = g x0 * scale ∧
+    ∀ a b : ℝ × ℝ, Neighbours a b (x0, log (g x0)) (mkTable (fun t => log (g t)) xs) → b.2 = log (g b.1) →
+      invgammaRe true scale b.1 (x0, log (g x0)) (mkTable (fun t => log (g t)) xs) = g b.1 * scale := by
+  obtain ⟨h1, h2⟩ := interp_nodes _ _ hinc
+  constructor
+  · simp only [invgammaRe, interpolatorApply, if_true, TranscReal.exp_eq]
+    have : interp x0 (x0, log (g x0)) (mkTable (fun t => log (g t)) xs) = log (g x0) := h1
+    rw [this, exp_log (hgpos _)]
+  · intro a b hn hb
+    simp only [invgammaRe, interpolatorApply, if_true, TranscReal.exp_eq]
+    rw [h2 a b hn, hb, exp_log (hgpos _)]
+
+/-! ## classic tabulated operators: the compositions around the spline (`spline`, `dspline` are SciPy's, parameters here) -/
+
+/-- `InverseGammaOperator`, `GammaOperator`, `LogInverseGammaOperator` are strictly increasing whenever the interpolant of
+    their table is, for positive `q`, `θ` -/
+theorem strictMono_tabulated_cl {spline : ℝ → ℝ} (hsp : StrictMono spline) {q : ℝ} (hq : 0 < q) :
+    StrictMono (invGammaCl spline q) ∧ StrictMono (gammaCl spline q) ∧ StrictMono (logInvGammaCl spline q) := by
+  refine ⟨fun a b hab => ?_, fun a b hab => ?_, fun a b hab => ?_⟩
+  · simp only [invGammaCl, TranscReal.exp_eq]
+    exact mul_lt_mul_of_pos_left (exp_strictMono (hsp hab)) hq
+  · simp only [gammaCl]
+    exact mul_lt_mul_of_pos_right (hsp hab) hq
+  · simp only [logInvGammaCl]
+    have := hsp hab
+    linarith
+
+/-- where the interpolant reproduces the table (`spline x = log Q(Φ x)`, resp. `Q(Φ x)`), the operators return the target
+    quantile: `q·Q_α(p)` is the inverse-gamma(α, q) quantile, `Q_α(p)·θ` the gamma(α, θ) quantile (scale families) -/
+theorem quantile_tabulated_cl {spline Q : ℝ → ℝ} (q x : ℝ) (hQ : 0 < Q (Φ x)) :
+    (spline x = log (Q (Φ x)) → invGammaCl spline q x = q * Q (Φ x)) ∧
+    (spline x = Q (Φ x) → gammaCl spline q x = Q (Φ x) * q) ∧
+    (0 < q → spline x = log (Q (Φ x)) → logInvGammaCl spline q x = log (q * Q (Φ x))) := by
+  refine ⟨fun h => ?_, fun h => ?_, fun hq h => ?_⟩
+  · simp only [invGammaCl, TranscReal.exp_eq, h, exp_log hQ]
+  · simp only [gammaCl, h]
+  · simp only [logInvGammaCl, TranscReal.log_eq, h, log_mul hq.ne' hQ.ne']
+
+/-- the Jacobian the `Linearization` of `InverseGammaOperator` carries (`q·exp(s)·s'`) is the derivative of its value -/
+theorem invgamma_cl_jacobian {spline dspline : ℝ → ℝ} (q x : ℝ) (hd : HasDerivAt spline (dspline x) x) :
+    HasDerivAt (invGammaCl spline q) (invGammaClJac spline dspline q x) x := by
+  have h2 := (hd.exp).const_mul q
+  have hfun : invGammaCl spline q = fun y => q * exp (spline y) := rfl
+  have hval : invGammaClJac spline dspline q x = q * (exp (spline x) * dspline x) := rfl
+  rw [hfun, hval]; exact h2
 
 end NiftyVerif.C30
